@@ -318,6 +318,7 @@ namespace Pistache
                 return entry;
             if (!isBound())
                 return nullptr;
+            PV_YIELD("queue.empty");
 
             // Nothing there. Drain the notification before looking once more: an entry pushed
             // after that look leaves the eventfd readable, so its wake-up can not be lost.
@@ -341,6 +342,7 @@ namespace Pistache
             if (entry)
             {
                 // its notification has just been drained, and so has that of any entry behind it
+                PV_YIELD("queue.renotify");
                 val = 1;
                 TRY(write(event_fd, &val, sizeof val));
             }
